@@ -460,6 +460,27 @@ fn main() {
             findings += f;
             dep_checks += d;
         }
+        // extra WIT worlds (world-level types, resources and handles; lib/universe_wit.py): text -> component by
+        // the reference toolchain, then the same instantiate-and-encode check (no elaboration to compare with)
+        let extra: Value = serde_json::from_str(&std::fs::read_to_string(format!("{dir}/wit_extra.json")).unwrap()).unwrap();
+        for w in extra["worlds"].as_array().unwrap() {
+            let mut resolve = wit_parser::Resolve::new();
+            let pkg = match resolve.push_str("extra.wit", w["wit"].as_str().unwrap()) {
+                Ok(x) => x,
+                Err(e) => {
+                    eprintln!("extra world {} is not WIT: {e:#}\n{}", w["id"], w["wit"].as_str().unwrap());
+                    std::process::exit(2);
+                }
+            };
+            let world = resolve.select_world(&[pkg], Some(w["world"].as_str().unwrap())).expect("world");
+            let mut module = wit_component::dummy_module(&resolve, world, wit_parser::ManglingAndAbi::Standard32);
+            wit_component::embed_component_metadata(&mut module, &resolve, world, wit_component::StringEncoding::UTF8).expect("metadata");
+            let comp = wit_component::ComponentEncoder::default().module(&module).expect("module").validate(true).encode().expect("component");
+            let (f, d) = check_component(&mut so, &comp, None, &json!({"wit_extra": w["id"], "world": w["world"], "text": w["wit"], "kf": w["kf"]}));
+            components += 1;
+            findings += f;
+            dep_checks += d;
+        }
         for lib in ["core", "ver", "shape", "plug", "det", "wac"] {
             let v: Value = serde_json::from_str(&std::fs::read_to_string(format!("{dir}/{lib}.json")).unwrap()).unwrap();
             for (pid, pk) in v["pkgs"].as_object().unwrap() {
